@@ -151,7 +151,8 @@ class CallMixin:
                 key = ("in", repr(self.ident_key(plain_args[0])), repr(("tok", recv.tok)))
                 for s2, present in self.decide(st, key):
                     if present:
-                        outs.append(Outcome("ok", s2, Sym(recv.tok + ("[" + vrepr(plain_args[0]) + "]",), prov)))
+                        outs.append(Outcome("ok", s2, Sym(recv.tok + ("[" + vrepr(plain_args[0]) + "]",), prov,
+                                                          tags={"nonsentinel"} if isinstance(default, Sentinel) else ())))
                     else:
                         outs.append(Outcome("ok", s2, default))
                 return outs
